@@ -108,8 +108,8 @@ RULE = (
     "helper by keywords; one function-value array object (a view into a larger array) through all four types twice, integrate(f), integrate(f, f), "
     "the grid's own weights / points arrays as f / centres, the dipole helper, with the surrounding bytes checked; histories with rejected calls of "
     "every kind in between and comparison with a fresh grid object; corr and oracle run as independent parts (an exception in one is recorded, the "
-    "others still run). Round 5 (every run, oracle): plain Grid / OneDGrid with synthetic points of 1025, 4097, 20001, 31234, 65537 points "
-    "(thorough: up to 1000003) for every moment type in 3-D, Cartesian / radial in 1-D / 2-D, integrate with 1-3 arrays and the dipole helper, against "
+    "others still run). Round 5 (every run, oracle): plain Grid / OneDGrid with synthetic points of 1025, 4097, 20001, 31234, 65537 and the exact multiples 1024, 2048, 4096, 20000, 65536 points "
+    "(thorough: up to 1000003, incl. 2^19 and 10^6) for every moment type in 3-D, Cartesian / radial in 1-D / 2-D, integrate with 1-3 arrays and the dipole helper, against "
     "a vectorised per-point evaluation of the defining integrand and against additivity over an uneven split of the grid; order lists / moments with more "
     "than 1024 rows; 1025 / 2049 points through the model and the generated program; descending / shuffled / ascending point orders (Grid, OneDGrid, "
     "reversed library grids, AtomGrid on a descending radial grid); argument arrays edited in place between calls (f[:] = new, centres overwritten, f *= c; "
@@ -1845,8 +1845,10 @@ from grid.utils import dipole_moment_of_molecule
 {large_src}
 {call}
 """
-QUICK_SIZES = [1025, 4097, 20001, 31234, 65537]
-THOROUGH_SIZES = [131073, 200003, 524289, 1000003]
+# just above round numbers (a dropped remainder shows there) AND exact multiples of plausible block sizes (a leftover
+# slice `[-rest:]` with rest == 0, a block counted twice or an empty last block show only there)
+QUICK_SIZES = [1025, 4097, 20001, 31234, 65537, 1024, 2048, 4096, 20000, 65536]
+THOROUGH_SIZES = [131073, 200003, 524289, 1000003, 524288, 1000000]
 
 
 def _oracle_large(ctx: Ctx, budget: str):
